@@ -14,6 +14,8 @@ def judge(case):
     if info.get("accepted") and not viol and info.get("rows") is not None and any(a.ndim >= 2 and a.size > 1 for a in arrays):
         viol += gradcheck.check_layouts(lambda arrs, rg: cat.run_lib(case, arrs, rg, copy=False), arrays, list(range(len(arrays))),
                                         case["op"], info["rows"], gradcheck.LAYOUTS)
+    if info.get("accepted") and not viol and info.get("rows") is not None:
+        viol += gradcheck.check_interleaved(lambda arrs, rg: cat.run_lib(case, arrs, rg), arrays, list(range(len(arrays))), case["op"], info["rows"])
     # the same Tensor object in several operand slots of ONE operation (x*x, concat([h, b, h]), x @ x, ...)
     n = len(arrays)
     pats = case.get("pats") or ["generic"] * n
